@@ -63,6 +63,9 @@ def _one(sc):
         bad += obs["problems"][:2]
         tr = out_trace(cap, conns, flows, o, sc.get("opts", ()), true_ns=true_ns)
     rel = [e for e in res.events if e["ev"] in ("feed", "release")]
+    if sc.get("stale_first"):           # the older connection's record is not part of this connection's framing: its feed / release are left out
+        sq = random.Random(sc["stale_first"]).randrange(1 << 32)
+        rel = [e for e in rel if not (e["dir"] == "s" and (e.get("seq") == sq or e.get("seqs") == [sq]))]
     return dict(sc=sc, bad=bad, traces=tr, events=rel,
                 framing={d: [len(r.raw) for r in c.records if r.d == d] for d in "cs"},
                 isn={d: (sc["conns"][0].get("isn", (1000, 5000))["cs".index(d)] + 1) % 2 ** 32 for d in "cs"})
@@ -93,6 +96,8 @@ def run(chk):
                 sc["step"] = max(sc["step"], 7)     # with 1 us spacing a 1 us tolerance cannot tell neighbours apart
             elif i % 3 == 1:
                 sc["container"] = rng.choice(TWO_IF)   # every second packet captured on a second interface with its own resolution / offset
+            elif i % 2 == 0:
+                sc["stale_first"] = rng.randrange(1, 1 << 30)   # the session is opened by a server->client segment of an older connection
             jobs.append(sc)
     # (b) records of n bytes carried by k packets
     r = tlc.run("TcpOut", dict(MaxLen="12", MaxK="5", MaxRec="4", EmitOn="TRUE"), invariants=["Emitter"],
